@@ -179,6 +179,7 @@ fn remove_private_dir(dir: &Path) -> Result<()> {
 			.write(true)
 			.open(dir.join("lock")));
 		lock_file.try_lock_exclusive().map_err(Error::Locked)?;
+		crate::db::lock_is_current(&lock_file, &dir.join("lock")).map_err(Error::Locked)?;
 		std::fs::remove_dir_all(dir)
 			.map_err(|e| Error::Migration(format!("Error removing {dir:?}: {e:?}")))?;
 	}
